@@ -19,15 +19,15 @@ type Violation struct {
 
 // Result is the verdict of one case. Verdicts are three-valued.
 type Result struct {
-	Case         int              `json:"case"`
-	Name         string           `json:"name"`
-	Verdict      string           `json:"verdict"` // held | violated | inconclusive
-	Violations   []Violation      `json:"violations,omitempty"`
-	Inconclusive string           `json:"inconclusive,omitempty"`
-	Nontrivial   bool             `json:"nontrivial"`
-	Fingerprint  string           `json:"fingerprint,omitempty"`
-	Stats        map[string]int64 `json:"stats,omitempty"`
-	Sample       interface{}      `json:"sample,omitempty"`
+	Case         int                 `json:"case"`
+	Name         string              `json:"name"`
+	Verdict      string              `json:"verdict"` // held | violated | inconclusive
+	Violations   []Violation         `json:"violations,omitempty"`
+	Inconclusive string              `json:"inconclusive,omitempty"`
+	Nontrivial   bool                `json:"nontrivial"`
+	Fingerprint  string              `json:"fingerprint,omitempty"`
+	Stats        map[string]int64    `json:"stats,omitempty"`
+	Sample       interface{}         `json:"sample,omitempty"`
 	Sets         map[string][]string `json:"sets,omitempty"` // named sets whose union is reported in evidence
 	// Fingerprints: for cases that enumerate many executions (fault positions), one fingerprint per
 	// distinct non-trivial execution; Evals is the number of executions the case performed.
